@@ -23,3 +23,60 @@ Example C13_nonvacuous :
   sw_run 3 [SFit [1; 2]; SPartial [3; 4]; SFit [9]; SPartial [5; 6; 7]] = [5; 6; 7] /\
   sw_run 3 [SFit [1; 2]; SPartial [3; 4]] = [2; 3; 4].
 Proof. vm_compute. split; reflexivity. Qed.
+
+
+(* ---- the window when a caller varies everything between two calls (window_size and only_labeled
+   through set_params, sample weights present or not); Model.SlidingWindow.swx_step, compared with
+   X_train_ / sample_weight_train_ of the implementation after every call ---- *)
+
+(* at most the CURRENT window_size samples, after every call *)
+Theorem C13_window_bounded_by_current_size : forall s c s',
+  swx_step s c = Some s' -> length (xwindow s') <= xw c.
+Proof. exact swx_length_bound. Qed.
+Print Assumptions C13_window_bounded_by_current_size.
+
+(* a fit leaks nothing: any history before it (other data, other parameters, weights or not) gives the
+   same window as the fit on a new object, and so does everything after it *)
+Theorem C13_window_history_before_fit_irrelevant : forall pre s c cs s1,
+  xfit c = true -> swx_run s pre = Some s1 -> swx_run s (pre ++ c :: cs) = swx_run xempty (c :: cs).
+Proof. exact swx_history_before_fit_irrelevant. Qed.
+Print Assumptions C13_window_history_before_fit_irrelevant.
+
+(* the stored weights always are the weights of exactly the samples in the window, in window order *)
+Theorem C13_window_weights_aligned : forall cs s',
+  swx_run xempty cs = Some s' -> xaligned s'.
+Proof. intros cs s'. apply swx_run_invariant. reflexivity. Qed.
+Print Assumptions C13_window_weights_aligned.
+
+(* with only_labeled nothing unlabeled enters; a fit on unlabeled samples only empties the window *)
+Theorem C13_window_only_labeled : forall s c s',
+  Forall (fun p => snd p = true) (xwindow s) -> xol c = true -> swx_step s c = Some s' ->
+  Forall (fun p => snd p = true) (xwindow s').
+Proof. exact swx_only_labeled. Qed.
+Print Assumptions C13_window_only_labeled.
+
+Theorem C13_window_fit_on_unlabeled_only_is_empty : forall s c s',
+  xfit c = true -> xol c = true -> Forall (fun p => snd p = false) (xs c) -> swx_step s c = Some s' ->
+  xwindow s' = [].
+Proof. exact swx_fit_unlabeled_only_empties. Qed.
+Print Assumptions C13_window_fit_on_unlabeled_only_is_empty.
+
+(* constant parameters: the richer model is the simple one on the filtered batches *)
+Theorem C13_window_constant_params : forall w ol cs s s',
+  Forall (fun c => xw c = w /\ xol c = ol) cs -> swx_run s cs = Some s' ->
+  xwindow s' = fold_left (sw_step_gen w) (map (fun c => (xfit c, keepl ol (xs c))) cs) (xwindow s).
+Proof. exact swx_constant_params_window. Qed.
+Print Assumptions C13_window_constant_params.
+
+(* the code as it was written kept the old deque length after window_size had been lowered: recorded and
+   repaired (known_findings.json, fixed) *)
+Theorem C13_window_shrunk_overfull_as_written_refuted :
+  exists st c, let st' := swa_step st c in xw c < length (fst st').
+Proof. exact swa_shrunk_window_overfull_refuted. Qed.
+Print Assumptions C13_window_shrunk_overfull_as_written_refuted.
+
+Example C13_window_varying_nonvacuous :
+  option_map (fun s => map fst (xwindow s))
+    (swx_run xempty [ {| xfit := true;  xw := 4; xol := false; xs := [(0, true); (1, false); (2, true); (3, true)]; xwt := true |};
+                      {| xfit := false; xw := 2; xol := true;  xs := [(4, false); (5, true)]; xwt := true |} ]) = Some [3; 5].
+Proof. vm_compute. reflexivity. Qed.
